@@ -466,22 +466,22 @@ func writeEvidence(e *Engine, prop, tier string, seed int, results []*JobResult,
 			"discharged":                    discharged,
 			"trivially_true_obligations":    trivial,
 			"no_overflow_and_quotient_obligations_discharged": overflow,
-			"obligations_by_label":          proved,
-			"harnesses":                     hl,
-			"functions_encoded":             fnList,
-			"bounds":                        bounds,
-			"symbolic_inputs":               len(vars),
-			"merges":                        merges,
-			"queries":                       map[string]interface{}{"sat": qs.Sat, "unsat": qs.Unsat, "unknown": qs.Unknown, "total": qs.Queries, "cache_hits": qs.CacheHits, "model_hits": qs.ModelHits},
-			"solver_time_s":                 qs.Time.Seconds(),
-			"solver":                        strings.Join(solverCmd, " "),
-			"cover_points":                  map[string]interface{}{"declared": decl, "reached": reach},
-			"known_findings_hit":            known,
-			"inconclusive":                  incon,
-			"encoding_regenerated_from":     e.repo + " working tree (go/packages + go/ssa, this run)",
-			"load_s":                        e.loadTime.Seconds(),
-			"init_steps":                    e.initSteps,
-			"exhaustive":                    false,
+			"obligations_by_label":                            proved,
+			"harnesses":                                       hl,
+			"functions_encoded":                               fnList,
+			"bounds":                                          bounds,
+			"symbolic_inputs":                                 len(vars),
+			"merges":                                          merges,
+			"queries":                                         map[string]interface{}{"sat": qs.Sat, "unsat": qs.Unsat, "unknown": qs.Unknown, "total": qs.Queries, "cache_hits": qs.CacheHits, "model_hits": qs.ModelHits},
+			"solver_time_s":                                   qs.Time.Seconds(),
+			"solver":                                          strings.Join(solverCmd, " "),
+			"cover_points":                                    map[string]interface{}{"declared": decl, "reached": reach},
+			"known_findings_hit":                              known,
+			"inconclusive":                                    incon,
+			"encoding_regenerated_from":                       e.repo + " working tree (go/packages + go/ssa, this run)",
+			"load_s":                                          e.loadTime.Seconds(),
+			"init_steps":                                      e.initSteps,
+			"exhaustive":                                      false,
 		},
 		Assumptions: e.assumptionsFor(hl),
 	}
